@@ -39,6 +39,10 @@ class Contract:
         self.is_cm = kw.pop("is_cm", False)
         self.exit_ensures = list(kw.pop("exit_ensures", ()))
         self.exit_modifies = list(kw.pop("exit_modifies", ()))
+        # conditions that hold whenever an exception listed in may_raise escapes (exception safety)
+        self.exc_ensures = list(kw.pop("exc_ensures", ()))
+        # definitional updates of ghost (specification-only) state: assumed at call sites, not checked on the body
+        self.ghost_ensures = list(kw.pop("ghost_ensures", ()))
         if kw:
             raise TypeError(f"unknown contract keys {list(kw)} for {key}")
 
@@ -58,7 +62,15 @@ class ClassSpec:
 
 
 def klass(name, **kw):
+    """Declare (or extend: fields are merged, invariants de-duplicated) the specification of a class."""
     c = ClassSpec(name, **kw)
+    old = REG["classes"].get(name)
+    if old is not None:
+        old.fields.update(c.fields)
+        for i in c.invariant:
+            if i not in old.invariant:
+                old.invariant.append(i)
+        return old
     REG["classes"][name] = c
     return c
 
